@@ -485,4 +485,21 @@ theorem c15_lock_order_acyclic :
 through its exported fields is this caller's own; the static half of `c15_monitors_independent`. -/
 theorem c15_constructors_return_fresh_values : FV.Generated.Locks.sharedCtors = [] := by decide
 
+/-- **Fields are written under their lock** (regenerated from lib/go on every check): no method writes a field
+of a mutex-holding struct (the adapter transport's lifecycle state) while no mutex of that struct is write-held — by assignment, `++`, `delete` or an
+atomic store — unless the site is one of the hand-classified set-up / single-owner sites of
+`known/locks_unguarded_expected.txt`. The atomic-step models read and write such state in ONE critical section;
+a value computed from a read under the lock and stored after it was released (a lazily filled cache) is a lost
+update the models cannot exhibit and the race detector does not see. -/
+theorem c15_fields_written_under_lock :
+    FV.Locks.writesGuarded [2] FV.Generated.Locks.unguardedUnexpected = true := by decide +kernel
+
+/-- **Locks held across calls are released by defer** (regenerated from lib/go on every check): no function calls
+anything while it holds a mutex that only a hand-written `Unlock` releases, except the hand-classified callees that
+cannot panic (`manual:` lines of `known/locks_unguarded_expected.txt`). The models release a mutex on EVERY exit of
+a critical section, a panic included — the servers recover panics of user-supplied code and keep serving, so a
+hand-released mutex would stay locked and every later request behind it would go unanswered. -/
+theorem c15_locks_released_by_defer :
+    FV.Locks.releasedByDefer [2] FV.Generated.Locks.manualUnexpected = true := by decide +kernel
+
 end FV.C15
